@@ -28,26 +28,29 @@ from vlib.core import MachineryError
 
 PID = "C10"
 HDIR = os.path.join(core.HARNESS, "complex")
-CFGS = [("float", 0), ("float", 1), ("double", 0), ("double", 1)]      # index = -DCFG value
-ALL_ACTIONS = ["SetVal", "SetPart", "AssignScalar", "Assign", "CtorLv", "FromStd", "ToStd", "Bin", "BinS", "BinStd", "Cmp", "CmpS", "CmpP",
+CFGS = [("float", 0), ("float", 1), ("double", 0), ("double", 1), ("ldouble", 0), ("ldouble", 1)]      # index = -DCFG value; long double: thorough tier only
+ALL_ACTIONS = ["SetVal", "SetPart", "AssignScalar", "Assign", "AssignMove", "Swap", "CtorLv", "FromStd", "ToStd", "Bin", "BinS", "BinStd", "Cmp", "CmpS", "CmpP",
                "CmpStd", "Un", "Norm", "Part", "Eq", "EqStd", "EqReal", "Ctor", "Str", "Fwd"]     # + Load (script set-up only)
 # second build of the Annex G harness (thorough tier): the baseline's optimisation flags.  Contraction of a*b+c into
 # fused multiply-add is switched off: it is a compiler licence that rounds differently depending on how a call was inlined,
 # so "identical for value and reference closures" is only a statement about the source-level arithmetic.
 NATIVE_FLAGS = ["-O2", "-march=native", "-DNDEBUG", "-ffp-contract=off"]
+CLANG_FLAGS = ["-O2", "-DNDEBUG", "-ffp-contract=off"]        # third build (thorough tier): another compiler
 OBSERVERS = {"Bin", "BinS", "BinStd", "Un", "Norm", "Part", "Eq", "EqStd", "EqReal", "Ctor", "Str", "Fwd"}
 
 
 # ------------------------------------------------------------------ compile probes
 PRELUDE = r"""
 #include <xtl/xcomplex.hpp>
+#include <sstream>
 template <class T, bool B> void probe()
 {
     using V = xtl::xcomplex<T, T, B>; using W = xtl::xcomplex<T, T, !B>;
     using R = xtl::xcomplex<T&, T&, B>; using K = xtl::xcomplex<const T&, const T&, B>;
     V v1(1, 2), v2(3, 4); W w(1, 1); T p1 = 1, q1 = 2, p2 = 3, q2 = 4;
     R r1(p1, q1), r2(p2, q2); K k1(p1, q1); std::complex<T> s(1, 1); T d = 2; int i = 2;
-    (void)v1; (void)v2; (void)w; (void)r1; (void)r2; (void)k1; (void)s; (void)d; (void)i;
+    long l = 2; float f = 2; double dd = 2; long double ld = 2;
+    (void)v1; (void)v2; (void)w; (void)r1; (void)r2; (void)k1; (void)s; (void)d; (void)i; (void)l; (void)f; (void)dd; (void)ld;
 """
 POSTLUDE = r"""
 }
@@ -67,12 +70,13 @@ def probe_families():
     fam["binary * / across closure kinds"] = ["{ auto z = %s * %s; auto y = %s / %s; (void)z; (void)y; }" % (a, b, a, b) for a in CREGS for b in CREGS]
     fam["compound += -= across closure kinds"] = ["{ %s += %s; %s -= %s; }" % (a, b, a, b) for a in MREGS for b in CREGS]
     fam["compound *= /= across closure kinds"] = ["{ %s *= %s; %s /= %s; }" % (a, b, a, b) for a in MREGS for b in CREGS]
-    fam["mixed real/complex, both orders"] = ["{ auto z = %s %s %s; (void)z; }" % (l, o, r) for a in CREGS for o in "+-*/" for sc in ("d", "i") for (l, r) in ((a, sc), (sc, a))]
-    fam["compound with a real"] = ["{ %s %s= %s; }" % (a, o, sc) for a in MREGS for o in "+-*/" for sc in ("d", "i")]
+    fam["mixed real/complex, both orders"] = ["{ auto z = %s %s %s; (void)z; }" % (l, o, r) for a in CREGS for o in "+-*/" for sc in SCALARS for (l, r) in ((a, sc), (sc, a))]
+    fam["compound with a real"] = ["{ %s %s= %s; }" % (a, o, sc) for a in MREGS for o in "+-*/" for sc in SCALARS]
     fam["unary - +, conj, proj, norm, explicit value conversion"] = \
         ["{ auto a = -%s; auto b = +%s; auto c = conj(%s); auto e = proj(%s); auto n = norm(%s); V t(%s); (void)a; (void)b; (void)c; (void)e; (void)n; (void)t; }" % ((a,) * 6) for a in CREGS]
     fam["assignment across closure kinds"] = ["{ %s = %s; }" % (a, b) for a in MREGS for b in CREGS if not (KIND[a] == "ref" and KIND[b] == "ref")] + \
-        ["{ %s = d; %s = i; }" % (a, a) for a in MREGS]
+        ["{ %s = %s; }" % (a, sc) for a in MREGS for sc in SCALARS] + \
+        ["{ auto t = +%s; %s = std::move(t); }" % (b, a) for a in MREGS for b in CREGS] + ["{ using std::swap; swap(v1, v2); swap(v1, v1); }"]
     fam["== != across closure kinds"] = ["{ bool e = (%s == %s); bool n = (%s != %s); (void)e; (void)n; }" % (a, b, a, b) for a in CREGS for b in CREGS] + \
         ["{ bool e = (%s == V(s)) || (%s != V(d)) || (std::complex<T>(%s) == s); (void)e; }" % (a, a, a) for a in CREGS]
     fam["std::complex conversion and mixed forms"] = \
@@ -83,10 +87,21 @@ def probe_families():
         ["{ T a = %s.real() + %s.imag() + xtl::real(%s) + xtl::imag(%s); (void)a; }" % ((a,) * 4) for a in CREGS] + \
         ["{ %s.real() = d; %s.imag() = d; xtl::real(%s) = d; xtl::imag(%s) = d; }" % ((a,) * 4) for a in MREGS] + \
         ["{ xtl::real(s) = d; xtl::imag(s) = d; xtl::real(d) = 1; T a = xtl::real(s) + xtl::imag(s) + xtl::real(d) + xtl::imag(d); (void)a; }"]
+    fam["operator<<"] = ["{ std::ostringstream os; os << %s; }" % a for a in CREGS]
+    fam["forwarded elementary functions"] = ["{ auto z = %s(%s); (void)z; }" % (fn, a) for fn in FWD1 for a in CREGS]
+    fam["pow"] = ["{ auto z = pow(%s, %s); (void)z; }" % (a, b) for a in CREGS for b in CREGS] + \
+        ["{ auto z = pow(%s, %s); auto y = pow(%s, %s); (void)z; (void)y; }" % (a, sc, sc, a) for a in CREGS for sc in ("d", "i")]
+    fam["accessors on rvalues and const objects"] = \
+        ["{ auto t1 = %s; auto t2 = %s; const auto& c = %s; T a = std::move(t1).real() + xtl::imag(std::move(t2)) + c.real() + c.imag() + xtl::real(c) + xtl::imag(c); (void)a; }" % (a, a, a) for a in CREGS]
     return fam
 
 
-def run_probes(ctx):
+SCALARS = ("d", "i", "l", "f", "dd", "ld")
+FWD1 = ["abs", "arg", "norm", "conj", "proj", "exp", "log", "log10", "sqrt", "sin", "cos", "tan", "asin", "acos", "atan",
+        "sinh", "cosh", "tanh", "asinh", "acosh", "atanh"]
+
+
+def run_probes(ctx, link=False):
     pdir = ctx.sub("probes")
     fams = probe_families()
 
@@ -96,7 +111,10 @@ def run_probes(ctx):
         pre = PRELUDE.count("\n")
         with open(src, "w") as f:
             f.write(PRELUDE + "\n".join("    " + s for s in stmts) + POSTLUDE)
-        rc, out = core.sh([core.CXX, "-std=c++14", "-fsyntax-only", "-I", core.INCLUDE, src], timeout=300)
+        if link:      # also catches an overload that is declared but no longer defined
+            rc, out = core.sh([core.CXX, "-std=c++14", "-O0", "-I", core.INCLUDE, src, "-o", src[:-4] + ".bin"], timeout=600)
+        else:
+            rc, out = core.sh([core.CXX, "-std=c++14", "-fsyntax-only", "-I", core.INCLUDE, src], timeout=300)
         if rc == 0:
             return None
         if rc == 124:
@@ -109,19 +127,120 @@ def run_probes(ctx):
                 k = int(m.group(1)) - pre - 1
                 if 0 <= k < len(stmts):
                     stmt = stmts[k]
-            if " error: " in line and first is None:
+            if (" error: " in line or "undefined reference" in line) and first is None:
                 first = line.strip()
         return name, stmt or "(statement not identified)", first or out[-400:], stmts
 
-    with ThreadPoolExecutor(max_workers=6) as ex:
+    with ThreadPoolExecutor(max_workers=min(6, core.NCPU)) as ex:
         res = list(ex.map(one, enumerate(sorted(fams.items()))))
     failed = [r for r in res if r]
     for name, stmt, err, stmts in failed:
-        ctx.violation("a call Complex.tla enables does not compile - family '%s': %s  ; compiler: %s" % (name, stmt, err[:600]),
-                      replay_lines=[{"op": "CompileProbe", "a": {"family": name}}])
+        ctx.violation("a call Complex.tla enables does not %s - family '%s': %s  ; compiler: %s" % ("link" if link else "compile", name, stmt, err[:600]),
+                      replay_lines=[{"op": "CompileProbe", "a": {"family": name, "link": link}}])
     ctx.notes["compile_probe_families"] = len(fams)
     ctx.notes["compile_probe_statements"] = sum(len(v) for v in fams.values())
     return failed
+
+
+# ------------------------------------------------------------------ type table (ComplexTypes.tla -> static_asserts)
+OPSYM = {"add": "+", "sub": "-", "mul": "*", "div": "/"}
+STC = {"T": "T", "int": "int", "long": "long", "float": "float", "double": "double", "ldouble": "long double"}
+
+
+def _xc(k, b):
+    return "%s<%s>" % (k, "true" if b else "false")
+
+
+def type_row(e, ty):
+    """(C++ condition, human-readable row) of one row of the table TLC enumerated"""
+    L = "std::declval<const %s&>()" % _xc(e["kl"], e["bl"])
+    LM = "std::declval<%s&>()" % _xc(e["kl"], e["bl"])
+    R = "std::declval<const %s&>()" % _xc(e["kr"], e["br"]) if e["kr"] != "-" else None
+    S = "std::declval<const %s&>()" % STC[e["st"]] if e["st"] != "-" else None
+    f, g = e["f"], e["g"]
+    if f == "bin": ex = "%s %s %s" % (L, OPSYM[g], R)
+    elif f == "binsr": ex = "%s %s %s" % (L, OPSYM[g], S)
+    elif f == "binsl": ex = "%s %s %s" % (S, OPSYM[g], L)
+    elif f == "cmp": ex = "%s %s= %s" % (LM, OPSYM[g], R)
+    elif f == "cmps": ex = "%s %s= %s" % (LM, OPSYM[g], S)
+    elif f == "asg": ex = "%s = %s" % (LM, R)
+    elif f == "asgs": ex = "%s = %s" % (LM, S)
+    elif f == "un": ex = ("-%s" % L) if g == "neg" else ("+%s" % L) if g == "pos" else "%s(%s)" % (g, L)
+    elif f == "refn": ex = "%s(%s)" % (g, L)
+    elif f == "eq": ex = "%s %s %s" % (L, "==" if g == "eq" else "!=", R)
+    elif f == "pow": ex = "pow(%s, %s)" % ((L, R) if g == "cc" else (L, S) if g == "cs" else (S, L))
+    elif f == "direct": ex = "%s %s std::declval<const std::complex<T>&>()" % (L, OPSYM[g])
+    elif f == "conv":
+        cond = {"tostd": "std::is_convertible<%s, std::complex<T>>::value" % _xc(e["kl"], e["bl"]),
+                "fromstd": "std::is_convertible<const std::complex<T>&, %s>::value" % _xc("val", e["bl"]),
+                "tovalue": "std::is_constructible<%s, const %s&>::value" % (_xc("val", e["bl"]), _xc(e["kl"], e["bl"]))}[g]
+        return cond, cond
+    else:
+        raise MachineryError("ComplexTypes.tla wrote an unknown expression family %s" % f)
+    want = {"xc": _xc("val", ty["ieee"]), "self": _xc(e["kl"], e["bl"]) + "&", "T": "T", "bool": "bool", "std": "std::complex<T>"}[ty["c"]]
+    text = "decltype(%s) is %s" % (ex, want)
+    for a, b in (("std::declval<const ", ""), ("std::declval<", ""), ("&>()", "")):
+        text = text.replace(a, b)
+    return "std::is_same<decltype(%s), %s>::value" % (ex, want), text
+
+
+TYPES_HEAD = ["#include <xtl/xcomplex.hpp>", "#include <type_traits>", "#include <utility>", "#include <complex>",
+              "namespace probe {", "using T = %s;",
+              "template <bool B> using val = xtl::xcomplex<T, T, B>;", "template <bool B> using ref = xtl::xcomplex<T&, T&, B>;",
+              "template <bool B> using cref = xtl::xcomplex<const T&, const T&, B>;"]
+
+
+def type_table(ctx):
+    """TLC enumerates the table of expression types (and checks its laws); every row becomes a static_assert over decltype.
+    A row that fails or does not compile is a violation naming the expression."""
+    r = core.tlc(ctx, "ComplexTypes", "ComplexTypes.cfg", name="types-enumerate", workers=2, timeout=600)
+    if r["violated"]:
+        raise MachineryError("ComplexTypes.tla violates its own law %s (oracle bug), see %s" % (r["violated"], r["outfile"]))
+    rows = emitted(r["out"], "@T@")
+    r["out"] = ""
+    if len(rows) != r["distinct"] or not rows:
+        raise MachineryError("type table: %d rows written, %d states" % (len(rows), r["distinct"]))
+    d = ctx.sub("types")
+    conds = [type_row(x["e"], x["ty"]) for x in rows]
+    bad = {}
+
+    def one(tname):
+        src = os.path.join(d, "types_%s.cpp" % tname.replace(" ", "_"))
+        with open(src, "w") as f:
+            f.write("\n".join(TYPES_HEAD) % tname + "\n")
+            for i, (cond, _) in enumerate(conds):
+                f.write('static_assert(%s, "ROW %d");\n' % (cond, i))
+            f.write("}\nint main() { return 0; }\n")
+        rc, out = core.sh([core.CXX, "-std=c++14", "-fsyntax-only", "-I", core.INCLUDE, src], timeout=600)
+        if rc == 124:
+            raise MachineryError("type table compile timed out")
+        res = {}
+        for line in out.splitlines():
+            m = re.match(r"%s:(\d+):\d+:\s+error:\s*(.*)" % re.escape(src), line.strip())
+            if m:
+                k = int(m.group(1)) - len(TYPES_HEAD) - 1
+                if 0 <= k < len(conds):
+                    res.setdefault(k, m.group(2)[:300])
+        if rc != 0 and not res:
+            raise MachineryError("type table does not compile for a reason outside its rows:\n%s" % out[-2000:])
+        return tname, res
+
+    with ThreadPoolExecutor(max_workers=3) as ex:
+        for tname, res in ex.map(one, ["float", "double", "long double"]):
+            for k, msg in res.items():
+                bad.setdefault(k, []).append((tname, msg))
+    for k in sorted(bad)[:10]:
+        ts = ", ".join(t for t, _ in bad[k])
+        msg = bad[k][0][1]
+        what = "has another type" if "static assertion failed" in msg else "does not compile (%s)" % msg[:200]
+        ctx.violation("type table (ComplexTypes.tla) row %d: for T in {%s}, %s - the expression %s" % (k, ts, conds[k][1], what),
+                      replay_lines=[{"op": "TypeRow", "a": {"e": rows[k]["e"], "ty": rows[k]["ty"]}}])
+    if len(bad) > 10:
+        ctx.log("... and %d more failing rows of the type table" % (len(bad) - 10))
+    ctx.notes["type_table_rows"] = len(rows)
+    ctx.notes["type_table_rows_failed"] = len(bad)
+    ctx.cov["states"] += r["distinct"]
+    return rows, bad
 
 
 # ------------------------------------------------------------------ helpers
@@ -151,15 +270,103 @@ def run_stdin(argv, inp, outp, timeout=1200):
     return p.returncode
 
 
-def build_all(ctx, native=False):
-    """driver (Annex G) and one machine binary per (T, B)."""
-    jobs = [{"src": os.path.join(HDIR, "driver.cpp"), "out": os.path.join(ctx.work, "driver")}]
-    for i in range(4):
-        jobs.append({"src": os.path.join(HDIR, "machine.cpp"), "out": os.path.join(ctx.work, "machine%d" % i), "flags": ["-DCFG=%d" % i, "-O0"]})   # -O0: 3x faster to compile; small integers are exact at any level
-    if native:
-        jobs.append({"src": os.path.join(HDIR, "driver.cpp"), "out": os.path.join(ctx.work, "driver_native"),
-                     "flags": NATIVE_FLAGS, "asan": False})
-    core.build_many(ctx, jobs)
+MAX_RESTARTS = 4
+
+
+def run_machine_script(argv, script_path, trace_path):
+    """Run the register machine over a script.  A crash (sanitizer report, signal, per-call CPU limit) ends the machine with a
+    final Crash event: the call that crashed is attached to that event (the replay re-executes it) and the machine is restarted
+    at the next execution (Reset), so one crash does not hide the rest of the script.  After MAX_RESTARTS crashes the rest of
+    the script is dropped (violations are certain by then).  Returns the number of executions dropped."""
+    env = dict(os.environ); env.update(core.ASAN_ENV)
+    with open(script_path) as f:
+        script = [l for l in f.read().splitlines() if l.strip()]
+    start, dropped = 0, 0
+    with open(trace_path, "w") as fout:
+        for attempt in range(MAX_RESTARTS + 1):
+            p = subprocess.run(argv, input=("\n".join(script[start:]) + "\n").encode(), stdout=subprocess.PIPE,
+                               stderr=subprocess.PIPE, env=env, timeout=1800)
+            if p.returncode == 3:
+                raise MachineryError("harness rejected script %s: %s" % (script_path, p.stderr.decode(errors="replace")[-500:]))
+            out = [l for l in p.stdout.decode(errors="replace").splitlines() if l.strip()]
+            crashed = bool(out) and out[-1].startswith('{"op":"Crash"')
+            if not crashed:
+                if len(out) != len(script) - start:
+                    raise MachineryError("machine stopped after %d of %d events without a Crash event (rc=%s): %s"
+                                         % (len(out), len(script) - start, p.returncode, p.stderr.decode(errors="replace")[-500:]))
+                fout.write("".join(l + "\n" for l in out))
+                return dropped
+            good = [l for l in out[:-1] if l.endswith("}")]      # a partially written line may precede the Crash event
+            crash = json.loads(out[-1])
+            if start + len(good) < len(script):
+                crash["call"] = json.loads(script[start + len(good)])
+            fout.write("".join(l + "\n" for l in good) + json.dumps(crash, separators=(",", ":")) + "\n")
+            nxt = start + len(good) + 1
+            while nxt < len(script) and not script[nxt].startswith('{"op":"Reset"'):
+                nxt += 1
+            if nxt >= len(script):
+                return dropped
+            start = nxt
+        dropped = sum(1 for l in script[start:] if l.startswith('{"op":"Reset"'))
+    return dropped
+
+
+def run_table(ctx, argv, cases_path, table_path, kind):
+    """Evaluate a case file (one JSON case per line) with a table mode of the driver.  A crash while evaluating a case is a
+    violation naming the case (a valid call that does not return a value); the driver is restarted behind it."""
+    env = dict(os.environ); env.update(core.ASAN_ENV)
+    with open(cases_path) as f:
+        cases = [l for l in f.read().splitlines() if l.strip()]
+    start, ncrash = 0, 0
+    with open(table_path, "w") as fout:
+        while start < len(cases):
+            p = subprocess.run(argv, input=("\n".join(cases[start:]) + "\n").encode(), stdout=subprocess.PIPE, stderr=subprocess.PIPE, env=env, timeout=1800)
+            if p.returncode == 3:
+                raise MachineryError("driver rejected %s: %s" % (cases_path, p.stderr.decode(errors="replace")[-500:]))
+            out = [l for l in p.stdout.decode(errors="replace").splitlines() if l.strip()]
+            crashed = (bool(out) and out[-1].startswith('{"op":"Crash"')) or p.returncode != 0
+            good = [l for l in out if not l.startswith('{"op":"Crash"') and l.endswith("}")]
+            fout.write("".join(l + "\n" for l in good))
+            if not crashed:
+                if len(good) != len(cases) - start:
+                    raise MachineryError("driver %s wrote %d rows for %d cases" % (argv[-1], len(good), len(cases) - start))
+                break
+            ncrash += 1
+            bad_case = cases[start + len(good)] if start + len(good) < len(cases) else "{}"
+            if ncrash <= 4:
+                ctx.violation("the harness crashed (%s) while evaluating the %s case %s" % (
+                    (out[-1] if out and out[-1].startswith('{"op":"Crash"') else "rc=%s %s" % (p.returncode, p.stderr.decode(errors="replace")[-300:])), kind, bad_case[:400]),
+                    replay_lines=[{"op": kind, "a": json.loads(bad_case)}])
+            if ncrash >= MAX_RESTARTS:
+                break
+            start += len(good) + 1
+    return ncrash
+
+
+def build_each(ctx, jobs):
+    """Compile the harnesses in parallel; a job that does not compile is recorded (job["error"]) instead of ending the run."""
+    def one(j):
+        try:
+            core.build(ctx, j["src"], j["out"], j.get("flags", ()), j.get("asan", True), j.get("cxx"))
+            j["ok"] = True
+        except MachineryError as e:
+            j["ok"], j["error"] = False, str(e)
+        return j
+    with ThreadPoolExecutor(max_workers=core.NCPU) as ex:
+        return list(ex.map(one, jobs))
+
+
+def harness_jobs(ctx, thorough):
+    """driver parts (1: Annex G tables, 2: exact arithmetic, 3: functions) and one machine binary per (T, B)."""
+    drv = os.path.join(HDIR, "driver.cpp")
+    jobs = [{"name": "driver%d" % k, "src": drv, "out": os.path.join(ctx.work, "driver%d" % k), "flags": ["-DDRV_PART=%d" % k]} for k in (1, 2, 3)]
+    for i in range(len(CFGS) if thorough else 4):
+        # -O0: faster to compile; small integers are exact at any level
+        jobs.append({"name": "machine%d" % i, "src": os.path.join(HDIR, "machine.cpp"), "out": os.path.join(ctx.work, "machine%d" % i),
+                     "flags": ["-DCFG=%d" % i, "-O0"]})
+    if thorough:
+        jobs.append({"name": "driver_native", "src": drv, "out": os.path.join(ctx.work, "driver_native"), "flags": NATIVE_FLAGS, "asan": False})
+        jobs.append({"name": "driver_clang", "src": drv, "out": os.path.join(ctx.work, "driver_clang"), "flags": CLANG_FLAGS, "asan": False, "cxx": "clang++"})
     return jobs
 
 
@@ -168,17 +375,32 @@ def annexg_classes(ctx, drv, seed, tag):
     """Run the harness table for one seed/binary and validate it with TLC.  Returns list of BAD dicts."""
     d = ctx.sub("annexg")
     raw = os.path.join(d, "classes-%s.ndjson" % tag)
-    rc, err = core.run_bin(ctx, [drv, "classes", str(seed)], timeout=600, stdout_path=raw)
-    if rc != 0:
-        raise MachineryError("driver classes failed rc=%s: %s" % (rc, err[-800:]))
+    rc, err = core.run_bin(ctx, [drv, "classes", str(seed)], timeout=900, stdout_path=raw)
     with open(raw) as f:
         lines = [l for l in f if l.strip()]
+    if rc == 3:
+        raise MachineryError("driver classes: %s" % err[-800:])
+    if rc != 0 or (lines and lines[-1].startswith('{"op":"Crash"')) or len(lines) != 6175:
+        # a valid multiplication / division that crashes or does not return: the row after the last one written
+        last = {}
+        for l in reversed(lines[1:]):
+            try:
+                last = json.loads(l)
+                if "f" in last:
+                    break
+            except ValueError:
+                continue
+        ctx.violation("Annex G table (%s): the harness crashed or stopped (rc=%s, %s) after %d of 6174 rows; last complete row: %s %s %s" % (
+            tag, rc, (lines[-1].strip() if lines and lines[-1].startswith('{"op":"Crash"') else err[-300:]), max(0, len(lines) - 1),
+            last.get("f"), last.get("x"), last.get("y")),
+            replay_lines=[{"op": "AnnexGTable", "a": {"seed": seed, "native": tag.split("-")[0] if tag.split("-")[0] in ("native", "clang") else ""}}])
+        return [], {"reps": {}}
     meta = json.loads(lines[0])["_meta"]
     table = os.path.join(d, "classes-%s.table" % tag)
     with open(table, "w") as f:
         f.writelines(lines[1:])
     r = core.tlc(ctx, "AnnexGCheck", "AnnexGCheck_classes.cfg", name="annexg-table-" + tag, env={"TABLE": table},
-                 extra=["-continue"], workers=6, timeout=900)
+                 extra=["-continue"], workers=W, timeout=900)
     bad = emitted(r["out"], "@BAD@")
     if r["distinct"] != 6174:
         raise MachineryError("AnnexGCheck did not visit all 6174 table rows (%s), see %s" % (r["distinct"], r["outfile"]))
@@ -220,13 +442,13 @@ def report_class_bad(ctx, drv, seed, tag, bad, again):
             tag, k["f"], k["x"], k["y"],
             "; ".join("result %s breaks '%s' [%s]" % (o, why, ",".join(sorted(vs))) for (o, why), vs in sorted(grp.items()))[:1100],
             " | ".join(s.strip() for s in dl)[:700])
-        ctx.violation(text, replay_lines=[{"op": "AnnexGRow", "a": {"key": k, "seed": seed, "native": tag.startswith("native")}}])
+        ctx.violation(text, replay_lines=[{"op": "AnnexGRow", "a": {"key": k, "seed": seed, "native": tag.split("-")[0] if tag.split("-")[0] in ("native", "clang") else ""}}])
     if len(bad) > 12:
         ctx.log("... and %d more rejected Annex G rows" % (len(bad) - 12))
 
 
 def extreme_cases(ctx, quick):
-    r = core.tlc(ctx, "AnnexGMC", "AnnexG_extreme_quick.cfg" if quick else "AnnexG_extreme.cfg", name="extreme-enumerate", workers=4, timeout=900)
+    r = core.tlc(ctx, "AnnexGMC", "AnnexG_extreme_quick.cfg" if quick else "AnnexG_extreme.cfg", name="extreme-enumerate", workers=W, timeout=900)
     if r["violated"]:
         raise MachineryError("AnnexG.tla violates its own law %s (oracle bug), see %s" % (r["violated"], r["outfile"]))
     cases = emitted(r["out"], "@X@")
@@ -240,21 +462,27 @@ def annexg_extreme(ctx, drv, cases):
     d = ctx.sub("extreme")
     cpath, tpath = os.path.join(d, "cases.ndjson"), os.path.join(d, "extreme.table")
     write_lines(cpath, cases)
-    run_stdin([drv, "extreme"], cpath, tpath)
-    bad = validate_extreme(ctx, tpath, len(cases), "extreme-table")
-    ctx.cov["evaluations"] += 3 * len(cases)
-    ctx.cov["transitions"] += len(cases)
-    ctx.log("extreme-divisor clause: %d cases enumerated by TLC, evaluated (3 operator variants) and validated; %d rejected" % (len(cases), len(bad)))
+    ncrash = run_table(ctx, [drv, "extreme"], cpath, tpath, "ExtremeCase")
+    nrows = sum(1 for _ in open(tpath))
+    if ncrash:
+        if not nrows:
+            return []
+        cases = cases[:0] + [json.loads(l) for l in open(tpath)]
+    bad = validate_extreme(ctx, tpath, nrows, "extreme-table")
+    ctx.cov["evaluations"] += 3 * nrows
+    ctx.cov["transitions"] += nrows
+    ctx.log("extreme-divisor clause: %d cases enumerated by TLC, evaluated (3 operator variants; real dividend / divisor: also the mixed forms) and validated; %d rejected" % (len(cases), len(bad)))
     if bad:
         # repeat before reporting
-        t2 = os.path.join(d, "extreme-again.table")
-        run_stdin([drv, "extreme"], cpath, t2)
-        again = {json.dumps(b["key"], sort_keys=True) for b in validate_extreme(ctx, t2, len(cases), "extreme-table-again")}
+        c2, t2 = os.path.join(d, "extreme-again.ndjson"), os.path.join(d, "extreme-again.table")
+        write_lines(c2, [b["key"] for b in bad])
+        run_table(ctx, [drv, "extreme"], c2, t2, "ExtremeCase")
+        again = {json.dumps(b["key"], sort_keys=True) for b in validate_extreme(ctx, t2, sum(1 for _ in open(t2)), "extreme-table-again")}
         for b in bad[:8]:
             if json.dumps(b["key"], sort_keys=True) not in again:
                 raise MachineryError("non-reproducible extreme-divisor rejection %s" % b["key"])
             k = b["key"]
-            text = "extreme divisor (%s): (%s * 2^%d) / (%s * 2^%d) should be %s * 2^%d exactly; %s" % (
+            text = "extreme divisor (%s): (%s * 2^%d) / (%s * 2^%d) should be %s * 2^%d (exactly; within 4 ulp if the divisor's squared modulus is not a power of two); %s" % (
                 k["t"], k["n"], k["m"], k["u"], k["k"], k["q"], k["m"] - k["k"],
                 "; ".join("%s part %d got %s expected %s" % (x["v"], x["part"], x["got"], x["exp"]) for x in b["fails"])[:1200])
             ctx.violation(text, replay_lines=[{"op": "ExtremeCase", "a": k}])
@@ -262,7 +490,7 @@ def annexg_extreme(ctx, drv, cases):
 
 
 def validate_extreme(ctx, tpath, ncases, name):
-    r = core.tlc(ctx, "AnnexGCheck", "AnnexGCheck_extreme.cfg", name=name, env={"TABLE": tpath}, extra=["-continue"], workers=6, timeout=900)
+    r = core.tlc(ctx, "AnnexGCheck", "AnnexGCheck_extreme.cfg", name=name, env={"TABLE": tpath}, extra=["-continue"], workers=W, timeout=900)
     bad = emitted(r["out"], "@BAD@")
     if r["distinct"] != ncases:
         raise MachineryError("AnnexGCheck(extreme) visited %d of %d records, see %s" % (r["distinct"], ncases, r["outfile"]))
@@ -270,6 +498,95 @@ def validate_extreme(ctx, tpath, ncases, name):
         raise MachineryError("AnnexGCheck(extreme): invariant verdict and reported rows disagree, see %s" % r["outfile"])
     r["out"] = ""
     return bad
+
+
+# ------------------------------------------------------------------ parts C, D: exact dyadic arithmetic, functions equal to <complex>'s
+W = min(4, core.NCPU)
+
+
+def enumerate_cases(ctx, module, cfg, name):
+    """TLC enumerates the cases of a table spec (and checks the spec's own laws on each)."""
+    r = core.tlc(ctx, module, cfg, name=name, workers=W, timeout=1500, heap="6g")
+    if r["violated"]:
+        raise MachineryError("%s violates its own law %s (oracle bug), see %s" % (module, r["violated"], r["outfile"]))
+    cases = emitted(r["out"], "@X@")
+    r["out"] = ""
+    if len(cases) != r["distinct"] or not cases:
+        raise MachineryError("%s: %d cases written, %d states" % (name, len(cases), r["distinct"]))
+    ctx.cov["states"] += r["distinct"]
+    return cases
+
+
+def sample_cases(cases, seed, quick, frac=0.6):
+    """quick tier: a seeded 60 % of the enumerated cases (other seeds take other cases); thorough: all"""
+    if not quick:
+        return cases
+    rnd = random.Random(seed * 1000003 + len(cases))
+    return [c for c in cases if rnd.random() < frac]
+
+
+def check_table(ctx, module, cfg, tpath, nrows, name):
+    r = core.tlc(ctx, module, cfg, name=name, env={"TABLE": tpath}, extra=["-continue"], workers=W, timeout=1500, heap="6g")
+    bad = emitted(r["out"], "@BAD@")
+    oracle = emitted(r["out"], "@ORACLE@")
+    if oracle:
+        raise MachineryError("%s disagrees with std::complex itself on %d rows (bug of the specification), e.g. %s" % (module, len(oracle), json.dumps(oracle[0])[:600]))
+    if r["distinct"] != nrows:
+        raise MachineryError("%s visited %d of %d rows, see %s" % (module, r["distinct"], nrows, r["outfile"]))
+    if bool(r["violated"]) != bool(bad):
+        raise MachineryError("%s: invariant verdict and reported rows disagree, see %s" % (module, r["outfile"]))
+    r["out"] = ""
+    return bad
+
+
+def table_stage(ctx, kind, drv, mode, cases, module, describe, build=""):
+    """S->C + C->S for one table spec: the harness evaluates the TLC-enumerated cases, TLC validates the recorded table.
+    Rejected rows are re-evaluated and re-validated once before they are reported."""
+    d = ctx.sub(kind + build)
+    cpath, tpath = os.path.join(d, "cases.ndjson"), os.path.join(d, "table.ndjson")
+    write_lines(cpath, cases)
+    ncrash = run_table(ctx, [drv, mode], cpath, tpath, kind + "Case")
+    nrows = sum(1 for _ in open(tpath))
+    if nrows == 0:
+        return []
+    bad = check_table(ctx, module, module + ".cfg", tpath, nrows, kind + build + "-table")
+    ctx.cov["evaluations"] += nrows
+    if not build:
+        ctx.cov["transitions"] += nrows
+        ctx.notes[kind + "_cases_evaluated"] = nrows
+    else:
+        ctx.notes["%s_cases_evaluated_%s_build" % (kind, build)] = nrows
+    ctx.log("%s%s: %d cases enumerated by TLC and evaluated on the real objects, table validated by TLC; %d rejected%s" % (
+        kind, " (%s build)" % build if build else "", nrows, len(bad), ", %d crashes" % ncrash if ncrash else ""))
+    if bad:
+        keys = [json.dumps(b["key"], sort_keys=True) for b in bad]
+        c2, t2 = os.path.join(d, "again.ndjson"), os.path.join(d, "again.table")
+        write_lines(c2, [b["key"] for b in bad])
+        run_table(ctx, [drv, mode], c2, t2, kind + "Case")
+        again = {json.dumps(b["key"], sort_keys=True) for b in check_table(ctx, module, module + ".cfg", t2, sum(1 for _ in open(t2)), kind + build + "-table-again")}
+        for b, k in list(zip(bad, keys))[:8]:
+            if k not in again:
+                raise MachineryError("non-reproducible %s rejection %s" % (kind, k))
+            ctx.violation((("[%s build] " % build) if build else "") + describe(b), replay_lines=[{"op": kind + "Case", "a": b["key"], "build": build}])
+        if len(bad) > 8:
+            ctx.log("... and %d more rejected %s rows" % (len(bad) - 8, kind))
+    return bad
+
+
+def describe_exact(b):
+    k = b["key"]
+    sc = "" if k["st"] == "T" else " (scalar of C++ type %s)" % k["st"]
+    return "exact arithmetic (ComplexExact.tla), %s ieee_compliant=%s: %s with xcomplex operand %s * 2^%d and other operand %s * 2^%d%s: %s" % (
+        k["t"], str(k["b"]).lower(), k["f"], k["x"], k["m"], k["y"] if k["f"] in ("add", "sub", "mul", "div") else k["y"][0], k["k"], sc,
+        "; ".join("variants %s part %d got %s expected %s" % (x["v"], x["part"], x["got"], x["exp"]) for x in b["fails"])[:1500])
+
+
+def describe_fn(b):
+    k = b["key"]
+    return "equal to std::complex's (ComplexFn.tla), %s ieee_compliant=%s: %s(x%s) with x = %s%s: %s" % (
+        k["t"], str(k["b"]).lower(), k["fn"], ", y" if k["fn"] in ("eq", "ne", "pow_cc", "pow_cs", "pow_sc", "pow_ci") else "",
+        json.dumps(k["x"]), (", y = " + json.dumps(k["y"])) if k["fn"] in ("eq", "ne", "pow_cc", "pow_cs", "pow_sc", "pow_ci") else "",
+        "; ".join("closure kinds %s got %s expected %s" % (x["v"], x["got"], x["exp"]) for x in b["fails"])[:1500])
 
 
 # ------------------------------------------------------------------ part A: register machine
@@ -330,7 +647,7 @@ def enumerate_edges(ctx, q, which):
     """TLC: every transition out of every initial state (also checks TypeOK, Aliases, Frame on them)."""
     cfg, what = {"kinds": ("Complex_s2c_kinds_quick.cfg" if q else "Complex_s2c_kinds.cfg", "all operations x all operand-kind patterns"),
                  "values": ("Complex_s2c_values_quick.cfg" if q else "Complex_s2c_values.cfg", "all pairs of Gaussian integers in the box x arithmetic patterns")}[which]
-    r = core.tlc_model_check(ctx, "ComplexMC", cfg, "L1 %s; invariants + frame property" % what, workers=4, heap="8g", timeout=1500,
+    r = core.tlc_model_check(ctx, "ComplexMC", cfg, "L1 %s; invariants + frame property" % what, workers=W, heap="8g", timeout=1500,
                              coverage=(not q and which == "kinds"))
     if r["violated"]:
         raise MachineryError("L1 spec Complex.tla violates its own theorem %s (oracle bug), see %s" % (r["violated"], r["outfile"]))
@@ -348,7 +665,7 @@ def simulate(ctx, q):
     """TLC simulation walks (longer histories)."""
     simdir = ctx.sub("sim")
     core.tlc(ctx, "ComplexMC", "Complex_sim.cfg", name="s2c-simulate", simulate="file=%s/t,num=%d" % (simdir, 30 if q else 100),
-             extra=["-depth", "20" if q else "30", "-seed", str(ctx.seed)], workers=1 if q else 4, timeout=900)
+             extra=["-depth", "20" if q else "30", "-seed", str(ctx.seed)], workers=1 if q else W, timeout=900)
     return simdir
 
 
@@ -364,8 +681,14 @@ def register_machine(ctx, q, edges_k, edges_v, simdir):
     tdir = ctx.sub("traces")
     traces, nexec, replayed = [], 0, 0
     jobs = []
-    for ci, (t, b) in enumerate(CFGS):
-        share = (ci, 4, ctx.seed % 4) if q else None
+    ncfg = 4 if q else len(CFGS)
+    dropped = [0]
+    for ci, (t, b) in enumerate(CFGS[:ncfg]):
+        if not os.path.exists(machine_of(ctx, t, b)):
+            continue                      # this instantiation did not build (reported by the caller)
+        # quick: the initial states are spread over the four instantiations; thorough: float and double take all of them,
+        # the two long double instantiations (outside the property's quantifier) one half each
+        share = (ci, 4, ctx.seed % 4) if q else ((ci - 4, 2, ctx.seed % 2) if ci >= 4 else None)
         lines, taken = edge_script(edges_k, t, b, share)
         l2, t2 = edge_script(edges_v, t, b, share)
         lines += l2
@@ -376,31 +699,49 @@ def register_machine(ctx, q, edges_k, edges_v, simdir):
             if ch:
                 jobs.append(("%s-%d-%02d" % (t, b, i), t, b, ch))
     ctx.sample({"script": [json.dumps(x) for x in jobs[0][3][:10]]})
-    ctx.sample({"walk": [json.dumps(x) for x in jobs[2 if q else 6][3][:12]]})
+    ctx.sample({"walk": [json.dumps(x) for x in jobs[min(len(jobs) - 1, 2 if q else 6)][3][:12]]})
 
     def runone(job):
         name, t, b, lines = job
         sp, tp = os.path.join(tdir, name + ".script"), os.path.join(tdir, name + ".ndjson")
         write_lines(sp, lines)
-        run_stdin([machine_of(ctx, t, b), t, str(b)], sp, tp)
+        dropped[0] += run_machine_script([machine_of(ctx, t, b), t, str(b)], sp, tp)
         return tp, sum(1 for l in lines if l["op"] == "Reset")
 
-    with ThreadPoolExecutor(max_workers=8) as ex:
+    if not jobs:
+        return
+    with ThreadPoolExecutor(max_workers=min(8, core.NCPU)) as ex:
         for tp, ne in ex.map(runone, jobs):
             traces.append(tp)
             nexec += ne
     ctx.cov["traces_validated_against_impl"] += nexec
     ctx.notes["s2c_transitions_enumerated"] = len(edges)
     ctx.notes["s2c_transitions_replayed"] = replayed
-    ctx.log("S->C: %d L1 transitions enumerated by TLC; %d calls replayed over the 4 instantiations (T x ieee_compliant)%s; %d simulation walks on each" % (
-        len(edges), replayed, " (initial states spread over them)" if q else "", ctx.notes.get("s2c_simulation_walks", 0)))
+    ctx.log("S->C: %d L1 transitions enumerated by TLC; %d calls replayed over the %d instantiations (T x ieee_compliant)%s; %d simulation walks on each" % (
+        len(edges), replayed, ncfg, " (initial states spread over them)" if q else "", ctx.notes.get("s2c_simulation_walks", 0)))
+    if dropped[0]:
+        ctx.log("the machine crashed more than %d times on a script: %d executions were not run" % (MAX_RESTARTS, dropped[0]))
+        ctx.notes["executions_dropped_after_repeated_crashes"] = dropped[0]
     before = ctx.cov["events_validated"]
-    core.validate_traces(ctx, "ComplexTrace", "ComplexTrace.cfg", traces, parallel=6, max_restarts=2)
+    core.validate_traces(ctx, "ComplexTrace", "ComplexTrace.cfg", traces, parallel=min(6, core.NCPU), max_restarts=2)
     ctx.cov["evaluations"] += ctx.cov["events_validated"] - before
     ctx.log("validated %d events in %d traces (%d executions)" % (ctx.cov["events_validated"] - before, len(traces), nexec))
 
 
 # ------------------------------------------------------------------ replay
+def build_driver(ctx, part, build=""):
+    """the driver part (1 Annex G, 2 exact, 3 fn) in the build flavour a violation was found with"""
+    out = os.path.join(ctx.work, "driver%d%s" % (part, build))
+    src = os.path.join(HDIR, "driver.cpp")
+    if build == "native":
+        core.build(ctx, src, out, flags=NATIVE_FLAGS + ["-DDRV_PART=%d" % part], asan=False)
+    elif build == "clang":
+        core.build(ctx, src, out, flags=CLANG_FLAGS + ["-DDRV_PART=%d" % part], asan=False, cxx="clang++")
+    else:
+        core.build(ctx, src, out, flags=["-DDRV_PART=%d" % part])
+    return out
+
+
 def replay(ctx, path):
     lines = [l for l in core.read_ndjson(path) if "_meta" not in l]
     if not lines:
@@ -408,7 +749,7 @@ def replay(ctx, path):
         return 2
     first = lines[0]
     if first["op"] == "CompileProbe":
-        failed = run_probes(ctx)
+        failed = run_probes(ctx, link=bool(first["a"].get("link")))
         hit = [f for f in failed if f[0] == first["a"]["family"]]
         if not hit:
             print("replay accepted: every call of family '%s' compiles" % first["a"]["family"])
@@ -416,44 +757,64 @@ def replay(ctx, path):
         print("VIOLATION property=C10 replay=%s" % path)
         print("  %s: %s ; %s" % (hit[0][0], hit[0][1], hit[0][2][:500]))
         return 1
-    if first["op"] == "AnnexGRow":
+    if first["op"] == "TypeRow":
+        rows, bad = type_table(ctx)
+        hit = [k for k in bad if rows[k]["e"] == first["a"]["e"]]
+        if not hit:
+            print("replay accepted: the expression has the type ComplexTypes.tla states")
+            return 0
+        print("VIOLATION property=C10 replay=%s" % path)
+        print("  row %d: %s" % (hit[0], bad[hit[0]][0][1][:500]))
+        return 1
+    if first["op"] in ("AnnexGRow", "AnnexGTable"):
         a = first["a"]
-        drv = os.path.join(ctx.work, "driver")
-        if a.get("native"):
-            core.build(ctx, os.path.join(HDIR, "driver.cpp"), drv, flags=NATIVE_FLAGS, asan=False)
-        else:
-            core.build(ctx, os.path.join(HDIR, "driver.cpp"), drv)
+        build = a.get("native") or ""
+        build = "native" if build is True else build
+        drv = build_driver(ctx, 1, build)
+        n0 = len(ctx.violations)
         bad, _ = annexg_classes(ctx, drv, a["seed"], "replay")
+        if first["op"] == "AnnexGTable":
+            if len(ctx.violations) == n0:
+                print("replay accepted: the whole Annex G table is evaluated without a crash")
+                return 0
+            print("VIOLATION property=C10 replay=%s" % path)
+            print("  " + ctx.violations[-1][1][:1500])
+            return 1
         want = json.dumps([a["key"]["f"], a["key"]["x"], a["key"]["y"]])
         hit = [b for b in bad if bad_key(b) == want]
-        if not hit:
+        if not hit and len(ctx.violations) == n0:
             print("replay accepted: the row %s now conforms to AnnexG.tla" % want)
             return 0
         print("VIOLATION property=C10 replay=%s" % path)
-        print("  " + json.dumps(hit[0])[:1500])
+        print("  " + (json.dumps(hit[0])[:1500] if hit else ctx.violations[-1][1][:1500]))
         return 1
-    if first["op"] == "ExtremeCase":
-        drv = os.path.join(ctx.work, "driver")
-        core.build(ctx, os.path.join(HDIR, "driver.cpp"), drv)
-        d = ctx.sub("extreme")
+    if first["op"] in ("ExtremeCase", "ExactCase", "FnCase"):
+        part, mode, module = {"ExtremeCase": (1, "extreme", None), "ExactCase": (2, "exact", "ComplexExactCheck"), "FnCase": (3, "fn", "ComplexFnCheck")}[first["op"]]
+        drv = build_driver(ctx, part, first.get("build", ""))
+        d = ctx.sub("replay")
         cpath, tpath = os.path.join(d, "case.ndjson"), os.path.join(d, "case.table")
         write_lines(cpath, [first["a"]])
-        run_stdin([drv, "extreme"], cpath, tpath)
-        bad = validate_extreme(ctx, tpath, 1, "extreme-replay")
-        if not bad:
-            print("replay accepted: the case now conforms to AnnexG.tla")
+        n0 = len(ctx.violations)
+        run_table(ctx, [drv, mode], cpath, tpath, first["op"])
+        bad = []
+        if len(ctx.violations) == n0:
+            bad = validate_extreme(ctx, tpath, 1, "extreme-replay") if module is None else check_table(ctx, module, module + ".cfg", tpath, 1, "replay-table")
+        if not bad and len(ctx.violations) == n0:
+            print("replay accepted: the case now conforms to the specification")
             return 0
         print("VIOLATION property=C10 replay=%s" % path)
-        print("  " + json.dumps(bad[0])[:1500])
+        print("  " + (json.dumps(bad[0])[:1500] if bad else ctx.violations[-1][1][:1500]))
         return 1
-    # a register machine execution
+    # a register machine execution (a Crash event carries the call that crashed: re-execute it)
+    lines = [l.get("call") if l.get("op") == "Crash" else l for l in lines]
+    lines = [l for l in lines if l]
     reset = next((l for l in lines if l["op"] == "Reset"), {"a": {"t": "double", "b": True}})
     t, b = reset["a"]["t"], int(bool(reset["a"]["b"]))
     exe = os.path.join(ctx.work, "machine%d" % CFGS.index((t, b)))
     core.build(ctx, os.path.join(HDIR, "machine.cpp"), exe, flags=["-DCFG=%d" % CFGS.index((t, b)), "-O0"])
     sp, tp = os.path.join(ctx.work, "replay.script"), os.path.join(ctx.work, "replay.ndjson")
     write_lines(sp, lines)
-    run_stdin([exe, t, str(b)], sp, tp)
+    run_machine_script([exe, t, str(b)], sp, tp)
     r = core.validate_trace(ctx, "ComplexTrace", "ComplexTrace.cfg", tp)
     if r["accepted"]:
         print("replay accepted: the recorded calls now conform to Complex.tla")
@@ -467,7 +828,9 @@ def replay(ctx, path):
 def selftest(ctx):
     """Corrupt one field of a recorded trace / table row / extreme record and show that TLC rejects exactly there."""
     import copy
-    build_all(ctx, native=False)
+    jobs = build_each(ctx, harness_jobs(ctx, False))
+    if not all(j["ok"] for j in jobs):
+        raise MachineryError(next(j["error"] for j in jobs if not j["ok"]))
     ok = True
     # (a) register machine trace: flip one cell of the logged state at event 9
     script = [{"op": "Reset", "a": {"t": "double", "b": True}}, {"op": "Load", "a": {"c": [1, 2, 3, 4, 5, 6, 7, 8, 9, 10, 11, 12, 2]}}]
@@ -477,7 +840,7 @@ def selftest(ctx):
                {"op": "Part", "a": {"x": "k1", "part": "im", "via": "free"}}]
     sp, tp = os.path.join(ctx.work, "st.script"), os.path.join(ctx.work, "st.ndjson")
     write_lines(sp, script)
-    run_stdin([machine_of(ctx, "double", 1), "double", "1"], sp, tp)
+    run_machine_script([machine_of(ctx, "double", 1), "double", "1"], sp, tp)
     r = core.validate_trace(ctx, "ComplexTrace", "ComplexTrace.cfg", tp)
     print("selftest: unmodified trace accepted: %s (%d events)" % (r["accepted"], r["total"]))
     ok &= r["accepted"]
@@ -494,7 +857,7 @@ def selftest(ctx):
         print("selftest: corrupted %s at event %d -> rejected at event %s : %s" % (what, idx + 1, r.get("fail_line", -1) + 1, "ok" if good else "NOT DETECTED"))
         ok &= good
     # (b) Annex G table: replace one observed result class
-    drv = os.path.join(ctx.work, "driver")
+    drv = os.path.join(ctx.work, "driver1")
     bad, _ = annexg_classes(ctx, drv, ctx.seed, "selftest")
     ok &= not bad
     tab = os.path.join(ctx.work, "annexg", "classes-selftest.table")
@@ -527,10 +890,18 @@ def selftest(ctx):
 def run(ctx):
     q = ctx.quick
     ctx.cov["evaluations"] = 0
+    # development aid (mutation experiments): VERIF_C10_STAGES=machine,annexg,exact,fn restricts the conformance stages that are
+    # run; the registered commands never set it and the evidence records it
+    only = set(x for x in os.environ.get("VERIF_C10_STAGES", "").split(",") if x)
+    if only:
+        ctx.notes["stages_restricted_to"] = sorted(only)
+    on = lambda st: not only or st in only
     pool = ThreadPoolExecutor(max_workers=8)
     # everything that needs no harness runs while the harnesses compile
-    fprobe = pool.submit(run_probes, ctx)          # 0. the calls the spec enables must exist
-    fbuild = pool.submit(build_all, ctx, not q)
+    ftypes = pool.submit(type_table, ctx)          # 0a. the types of the expressions the property talks about
+    fprobe = pool.submit(run_probes, ctx)          # 0b. the calls the specs enable must exist (and their bodies compile)
+    jobs = harness_jobs(ctx, not q)
+    fbuild = pool.submit(build_each, ctx, jobs)
     flaws = pool.submit(core.tlc_model_check, ctx, "AnnexGMC", "AnnexG_mc.cfg",
                         "Annex G allowed-result relation: partition, satisfiable, symmetric, sign-blind, NaN only where unspecified (7^4 x {mul,div})",
                         workers=2, coverage=not q)
@@ -538,7 +909,11 @@ def run(ctx):
     fek = pool.submit(enumerate_edges, ctx, q, "kinds")
     fev = pool.submit(enumerate_edges, ctx, q, "values")
     fsim = pool.submit(simulate, ctx, q)
+    fexact = pool.submit(enumerate_cases, ctx, "ComplexExactMC", "ComplexExact_quick.cfg" if q else "ComplexExact_thorough.cfg", "exact-enumerate")
+    ffn = pool.submit(enumerate_cases, ctx, "ComplexFnMC", "ComplexFn_quick.cfg" if q else "ComplexFn_thorough.cfg", "fn-enumerate")
 
+    rows, badrows = ftypes.result()
+    ctx.log("type table: %d rows enumerated by TLC, checked as static_asserts for float, double, long double; %d fail" % (len(rows), len(badrows)))
     failed = fprobe.result()
     ctx.log("compile probes: %d families, %d statements, %d families fail" % (ctx.notes["compile_probe_families"], ctx.notes["compile_probe_statements"], len(failed)))
     r = flaws.result()
@@ -548,27 +923,44 @@ def run(ctx):
         raise MachineryError("AnnexGMC did not enumerate 7^4 x 2 combinations: %s" % r["distinct"])
     if "coverage" in r:
         ctx.notes["annexg_relation_coverage"] = r["coverage"]
-    have = True
-    try:
-        fbuild.result()
-    except MachineryError:
-        if not failed:
-            raise
-        have = False      # the headers lack calls the harnesses make: already reported as violations
-        ctx.log("harnesses do not build on this tree (calls missing, see the violations): conformance runs skipped")
+    jobs = fbuild.result()
+    built = {j["name"]: j["ok"] for j in jobs}
+    notbuilt = [j for j in jobs if not j["ok"]]
+    if notbuilt:
+        ctx.log("harnesses that do not build on this tree: %s" % ", ".join(j["name"] for j in notbuilt))
+        if not ctx.violations:
+            # nothing found by the syntax-level probes: an overload may be declared but not defined - compile and link them
+            run_probes(ctx, link=True)
+        if not ctx.violations:
+            raise MachineryError(notbuilt[0]["error"])
+        ctx.notes["harnesses_not_built"] = [j["name"] for j in notbuilt]
     cases, edges_k, edges_v, simdir = fcases.result(), fek.result(), fev.result(), fsim.result()
+    ecases, fcs = fexact.result(), ffn.result()
     ctx.notes["extreme_cases_enumerated_by_tlc"] = len(cases)
+    ctx.notes["exact_cases_enumerated_by_tlc"] = len(ecases)
+    ctx.notes["fn_cases_enumerated_by_tlc"] = len(fcs)
+    # vacuity of the table specs: every form / scalar type / function occurs among the enumerated cases
+    ctx.notes["exact_cases_by_form"] = {f: sum(1 for c in ecases if c["f"] == f) for f in sorted({c["f"] for c in ecases})}
+    ctx.notes["exact_cases_by_scalar_type"] = {f: sum(1 for c in ecases if c["st"] == f) for f in sorted({c["st"] for c in ecases})}
+    ctx.notes["fn_cases_by_function"] = {f: sum(1 for c in fcs if c["fn"] == f) for f in sorted({c["fn"] for c in fcs})}
 
-    if have:
-        # ---- A. register machine (S->C), in the background
-        fmach = pool.submit(register_machine, ctx, q, edges_k, edges_v, simdir)
-        # ---- B. Annex G class tables (C->S) and the extreme-divisor clause
-        drv = os.path.join(ctx.work, "driver")
-        fext = pool.submit(annexg_extreme, ctx, drv, cases)
+    futs = []
+    # ---- A. register machine (S->C), in the background
+    if on("machine") and any(built.get("machine%d" % i) for i in range(6)):
+        futs.append(pool.submit(register_machine, ctx, q, edges_k, edges_v, simdir))
+    # ---- C, D. exact dyadic arithmetic, functions equal to std::complex's
+    if on("exact") and built.get("driver2"):
+        futs.append(pool.submit(table_stage, ctx, "Exact", os.path.join(ctx.work, "driver2"), "exact", sample_cases(ecases, ctx.seed, q), "ComplexExactCheck", describe_exact))
+    if on("fn") and built.get("driver3"):
+        futs.append(pool.submit(table_stage, ctx, "Fn", os.path.join(ctx.work, "driver3"), "fn", sample_cases(fcs, ctx.seed, q), "ComplexFnCheck", describe_fn))
+    # ---- B. Annex G class tables (C->S) and the extreme-divisor clause
+    if on("annexg") and built.get("driver1"):
+        drv = os.path.join(ctx.work, "driver1")
+        futs.append(pool.submit(annexg_extreme, ctx, drv, cases))
         runs = [(drv, ctx.seed, "asan-O1")]
         if not q:
-            runs += [(drv, ctx.seed * 7919 + 13, "asan-O1-s2"), (drv, ctx.seed * 104729 + 71, "asan-O1-s3"),
-                     (os.path.join(ctx.work, "driver_native"), ctx.seed, "native-O2")]
+            runs += [(drv, ctx.seed * 7919 + 13, "asan-O1-s2"), (drv, ctx.seed * 104729 + 71, "asan-O1-s3")]
+            runs += [(os.path.join(ctx.work, n), ctx.seed, tag) for n, tag in (("driver_native", "native-O2"), ("driver_clang", "clang-O2")) if built.get(n)]
         reps = {}
         for (d, seed, tag) in runs:
             bad, meta = annexg_classes(ctx, d, seed, tag)
@@ -577,32 +969,55 @@ def run(ctx):
                 again, _ = annexg_classes(ctx, d, seed, tag + "-again")
                 report_class_bad(ctx, d, seed, tag, bad, again)
         ctx.notes["annexg_representatives"] = reps
-        ctx.sample({"annexg_row": open(os.path.join(ctx.work, "annexg", "classes-asan-O1.table")).readlines()[1500][:600]})
-        fext.result()
-        fmach.result()
+        tab = os.path.join(ctx.work, "annexg", "classes-asan-O1.table")
+        if os.path.exists(tab):
+            ctx.sample({"annexg_row": open(tab).readlines()[1500][:600]})
+        # the other two compilers also evaluate the exact and the function tables (thorough tier)
+        for n, tag in (("driver_native", "native"), ("driver_clang", "clang")):
+            if not q and built.get(n):
+                futs.append(pool.submit(alt_tables, ctx, os.path.join(ctx.work, n), tag, ecases, fcs))
+    for f in futs:
+        f.result()
     pool.shutdown()
 
-    # distinct cases: TLC-deduplicated L1 transitions (state, call, arguments), TLC-enumerated extreme-divisor cases and the
-    # 6174 distinct Annex G class rows; representatives / instantiations / operator variants of the same case are not counted again
-    ctx.cov["distinct_nontrivial"] = (ctx.notes.get("s2c_transitions_enumerated", 0)
-                                      + ctx.notes.get("extreme_cases_enumerated_by_tlc", 0) + 6174)
+    # distinct cases: TLC-deduplicated L1 transitions (state, call, arguments), TLC-enumerated extreme-divisor, exact-arithmetic and
+    # function cases and the 6174 distinct Annex G class rows; representatives / instantiations / operator variants are not counted again
+    ctx.cov["distinct_nontrivial"] = (ctx.notes.get("s2c_transitions_enumerated", 0) + ctx.notes.get("extreme_cases_enumerated_by_tlc", 0)
+                                      + ctx.notes.get("Exact_cases_evaluated", 0) + ctx.notes.get("Fn_cases_evaluated", 0) + 6174)
     return core.finish(
         ctx, "exploration",
-        rule="distinct_nontrivial = distinct TLC-enumerated L1 transitions + distinct extreme-divisor cases + 6174 Annex G class rows "
-             "(every one involves an arithmetic or aliasing operation on the real objects; repeats over representatives, instantiations "
+        rule="distinct_nontrivial = distinct TLC-enumerated L1 transitions + distinct extreme-divisor, exact-arithmetic and function cases + 6174 Annex G class rows "
+             "(every one is an arithmetic, aliasing or forwarding operation on the real objects; repeats over representatives, instantiations "
              "and operator variants are not counted again). (A) Gaussian integers: TLC enumerates every L1 transition out of every initial state - all operations x all operand-kind "
-             "patterns over {v,v,w(!B),T&,T&,const T&,std::complex,real} with components in %s, and all pairs of Gaussian integers with "
-             "components in %s x arithmetic patterns - plus %d random walks; replayed on float/double x ieee_compliant false/true (quick: "
+             "patterns over {v,v,w(!B),T&,T&,const T&,std::complex,real of type T/int/long/float/double} with components in %s, and all pairs of Gaussian integers with "
+             "components in %s x arithmetic patterns - plus %d random walks; replayed on %s x ieee_compliant false/true (quick: "
              "initial states spread over the four) and every recorded step (result, 13 cells, views through closures) validated by TLC. "
              "(B) Annex G: all 7^4 operand class combinations x {mul,div} + 7^3 x 4 mixed real forms, 6 representatives per finite class "
-             "(1, 2.5, tiny/huge normal, 2 seeded), float and double, 5 operator variants; extreme-divisor clause on exactly representable "
-             "quotients (divisor scale 2^k up to the ends of the normal range). A case is one operator evaluation on the real objects." % (
-                 "{-1,0,2}" if q else "{-2,-1,0,3}", "-2..2" if q else "-3..3", 30 if q else 400),
+             "(1, 2.5, tiny/huge normal, 2 seeded), float and double, 7 operator variants incl. operands with different ieee flags; extreme-divisor clause on exactly "
+             "representable quotients (divisor scale 2^k up to the ends of the normal range). (C) exact dyadic arithmetic n*2^e: 12 operator forms x 6 scalar C++ types x "
+             "float/double/long double x both flags x 8 operator variants, operands moderate / subnormal / near the ends of the range%s. (D) ==, !=, unary -, +, conj, "
+             "real, imag defined by IEEE 754 and 24 forwarded functions equal bit-for-bit to <complex>'s on NaN / inf / signed zero / subnormal / huge / dyadic parts%s. "
+             "(0) 982-row type table and %d compile-probe statements. A case is one operator or function evaluation on the real objects." % (
+                 "{-1,0,2}" if q else "{-2,-1,0,3}", "-2..2" if q else "-3..3", 30 if q else 400, "float/double" if q else "float/double/long double",
+                 " (a seeded 60 % of the enumerated cases)" if q else "; a seeded 30 % also with g++ -O2 -march=native and with clang++ -O2",
+                 " (float, double; a seeded 60 %)" if q else " (also long double)", ctx.notes.get("compile_probe_statements", 0)),
         assumptions=["accuracy ('within a few units of rounding') on general finite doubles is NOT checked: only operands whose exact result is "
-                     "representable (small Gaussian integers; powers of two for the extreme-divisor clause), where correct means equal",
-                     "division is exercised only where the quotient is a Gaussian integer and the divisor's component ratio is dyadic "
-                     "(textbook, scaled Annex G and Smith's algorithm are all exact there)",
+                     "representable (small Gaussian integers; dyadic rationals n*2^e with |n| <= 7 and all intermediates representable; powers of two for the "
+                     "extreme-divisor clause), where correct means equal - except a quotient by a divisor whose squared modulus is not a power of two, accepted within 4 ulp",
+                     "division in the register machine only by divisors whose squared modulus is a power of two (every algorithm, also reciprocal multiplication, is exact there); "
+                     "other exact quotients are in part C with the 4 ulp tolerance",
                      "'finite operands never yield NaN' is read with the property's own definition: a result with an infinite part is an infinity, not a NaN",
-                     "the sign of zero results and NaN payloads are not compared; the non-ieee path is not checked on special values (the property says nothing)",
-                     "harnesses are built in ISO mode (-std=c++14: no floating-point contraction); elementary functions other than conj/norm/proj are not checked"],
+                     "the sign of zero results of + - * / and NaN payloads are not compared (signs of zeros ARE compared for unary -, +, conj, real, imag and every forwarded function); "
+                     "the non-ieee path is not checked on special values (the property says nothing)",
+                     "configurations: T in {float,double} both tiers, long double thorough only (outside the property's quantifier, like xcomplex<int>, which is not exercised); "
+                     "closure kinds T / T& / const T& and ieee_compliant false/true everywhere; compilers: g++ -O0/-O1 with AddressSanitizer both tiers, g++ -O2 -march=native -DNDEBUG and "
+                     "clang++ -O2 -DNDEBUG for parts B, C, D in the thorough tier only; ISO mode (-std=c++14, -ffp-contract=off): no floating-point contraction; "
+                     "only the default rounding direction; -ffast-math / flush-to-zero builds are not exercised",
+                     "operands of different element types (xcomplex<float> with xcomplex<double>) do not compile in xtl (common_xcomplex) and are outside the quantifier"],
         exhaustive=False)
+
+
+def alt_tables(ctx, drv, tag, ecases, fcs):
+    """thorough tier: the exact and the function tables once more with a driver built by another compiler / at -O2"""
+    for kind, mode, cs, module, describe in (("Exact", "exact", ecases, "ComplexExactCheck", describe_exact), ("Fn", "fn", fcs, "ComplexFnCheck", describe_fn)):
+        table_stage(ctx, kind, drv, mode, sample_cases(cs, ctx.seed + len(tag), True, frac=0.3), module, describe, build=tag)
